@@ -98,6 +98,8 @@ func (e *Exec) runPath(pkg *ssa.Package, fn *ssa.Function, prefix []Decision) (r
 	e.fsStatDirs = false
 	e.fsFaultOps = nil
 	e.walkList = nil
+	e.fsFiles = nil
+	e.fsFileOrder = nil
 	e.zipList = nil
 	e.gzipLog = nil
 	e.havocSeq = 0
